@@ -88,7 +88,7 @@ def master(sig: int, d: List[int], stub: List[bool], reexec: bool, child_of: boo
     K = KS.Kernel(master_signals=[[int(signal.SIGTERM), int(signal.SIGINT), int(signal.SIGQUIT)][sig]], budget=3)
     K.stubborn = set(i for i in range(n) if stub[i])
     K.exit_after = {i: d[i] for i in range(n)}
-    arb = mk_arbiter(K, n, timeout=30)
+    arb = mk_arbiter(K, n, timeout=CASE.get("wtimeout", 30))     # the heartbeat timeout must play no role in shutdown
     arb.cfg.graceful_timeout = gt
     arb.cfg.reuse_port = False
     lsn = [Lsn("/run/g.sock"), Lsn(("127.0.0.1", 8000))]
@@ -434,8 +434,11 @@ def gthread_term(t: int, nconn: int, finish_early: bool) -> bool:
             c = pending.pop(0)
             accepted.append(c)
             return c, ("10.0.0.9", 1000 + len(accepted))
-    lst = Listener()
+    lst = Listener(name="/run/g.sock")       # a unix bind: the worker must close it, never unlink it
     w.sockets = [lst]
+    unlinked = []
+    saved_gs = GS.os
+    GS.os = ns("GS.os", unlink=lambda p: unlinked.append(p))
 
     class Poller(W.Poller):
         def select(self_, timeout):
@@ -479,7 +482,8 @@ def gthread_term(t: int, nconn: int, finish_early: bool) -> bool:
         w.run()
     finally:
         G.futures, G.os = saved
-    if w.alive or lst.closed != 1 or not w.poller.closed or pool.shut != 1:
+        GS.os = saved_gs
+    if w.alive or lst.closed != 1 or not w.poller.closed or pool.shut != 1 or unlinked:
         return False
     # the final wait covers the in-flight requests and uses the graceful timeout
     if not waits or waits[-1][1] != cfg.graceful_timeout:
@@ -513,12 +517,14 @@ def gthread_term_twin(t: int, nconn: int, finish_early: bool) -> bool:
     return not gthread_term(t, nconn, finish_early)
 
 
-def _mcases(ns, full):
+def _mcases(ns_, full):
     out = []
-    for n in ns:
+    for n in ns_:
         for sig in (0, 1, 2):
             for re_, ch in (((False, False), (True, False), (False, True)) if (full or n <= 1) else ((False, False),)):
                 out.append({"n": n, "sig": sig, "reexec": re_, "child_of": ch})
+        if n:
+            out.append({"n": n, "sig": 0, "reexec": False, "child_of": False, "wtimeout": 0})
     return out
 
 
